@@ -3,48 +3,69 @@
 import json, os, sys
 HERE = os.path.dirname(os.path.dirname(os.path.abspath(__file__)))
 
-P_NOTE = ('Trusted base: PyVC (self-built VC generator over the real ASTs, /verif/pyvc; semantics assumed are listed in '
-          'DESIGN.md 2.4), z3 5.1.0, the typed-heap invariant of contracts/types.py, the builtin models of '
-          'pyvc/builtins.py, exact model classes, effect-free error-message formatting. Bounded stand-ins (B) run the '
-          'real code over the stated finite domains and are never counted as proved.')
+P_NOTE = ('Level is `other` because at least one clause of every property is only reached by a bounded stand-in (B) or a static '
+          'evaluation (S); the P/L obligations are discharged by z3 (cvc5 for one lemma step) for all inputs. Trusted base: PyVC '
+          '(self-built VC generator over the real ASTs, /verif/pyvc; semantics assumed are listed in DESIGN.md 2.4), z3 5.1.0, the '
+          'typed-heap invariant of contracts/types.py, the builtin models of pyvc/builtins.py, exact model classes, effect-free '
+          'error-message formatting, assumed (tier none) contracts of the regex helpers. Bounded stand-ins run the real code over the '
+          'stated finite domains and are never counted as proved. A refuted P obligation is a VIOLATION only with a natively replayed '
+          'input or when it was discharged on the committed tree (ledger); undecided is never a violation.')
 
 CHECKS = {
- 'C01': ('other', 'P: constructors/adders that the builders call are proved against contracts (contracts/table.py, database.py); '
-         'B (bounded, labelled as such): view(parse(surface(m, spelling))) == m over exhaustive per-element feature products and seeded documents, '
-         'spelling invariance; the pyparsing engine itself is outside a contract verifier\'s reach (DESIGN.md 2.7)', '3/C01',
-         'contracts on constructors (PyVC+z3) + bounded run-time contract on the real parser'),
- 'C02': ('other', 'B (bounded): parse(db.dbml) has the same view and rendering is a fixpoint, over API-built models of the DBML-expressible domain and the repository documents; '
-         'P obligations on the DBML renderers are being added', '3/C02', 'bounded run-time contract (round trip oracle) on the real renderer+parser'),
- 'C03': ('other', 'B (bounded): read_ddl(db.sql) == ddl(view(db)) with an independent SQL reader over enumerated and seeded API-built models', '3/C03',
-         'bounded run-time contract with independent DDL reader'),
- 'C04': ('other', 'B (bounded): every reference exactly once, direction, inline xor ALTER, constraint names, actions, join tables, read back from db.sql', '3/C04',
-         'bounded run-time contract with independent DDL reader'),
- 'C05': ('other', 'P: lookup/back-pointer contracts (Database.table_dict, __getitem__, add_*, Table.add_column/add_index/__getitem__, note setters) discharged by z3; '
-         'B (bounded): identity predicates on parsed databases with varied addressing', '3/C05', 'contracts (PyVC+z3) + bounded identity checks on parsed databases'),
- 'C06': ('other', 'P: exceptional postconditions (raises iff rule broken, heap unchanged) of Database.add_table/add_enum/add_table_group/add_reference/add and Table.__getitem__ discharged by z3; '
-         'B (bounded): every rule x both declaration orders x position x spelling on seeded base schemas raises the rule\'s error', '3/C06', 'exceptional postconditions (PyVC+z3)'),
- 'C07': ('other', 'B (bounded, exhaustive over fault kinds x sites of the base documents): every injected fault of the statement\'s kinds makes the parse raise a pyparsing exception; a later parse is unaffected (no leak). '
-         'The accepted language of the pyparsing grammar is outside a contract verifier\'s reach (DESIGN.md 2.7)', '3/C07', 'bounded fault-injection contract on the real parser'),
- 'C08': ('other', 'B (bounded): outcome of parse/.dbml/.sql is in the allowed exception set over exhaustive token soups, site fills and seeded mutations', '3/C08',
-         'bounded run-time contract on the real entry points'),
+ 'C01': ('other', 'P: the 15 parse actions (blueprint = exactly the tokens, optional parts None, trailing comment wins), blueprint builders incl. ColumnBlueprint.build (enum linking by last-dot split) and '
+         'ReferenceBlueprint.build (endpoints are the listed tables\' own Column objects), constructors, adders and Table.__getitem__ are discharged by z3 for all inputs; S: newline is significant; '
+         'B (bounded, never counted as proved): view(parse(surface(m, spelling))) == m over exhaustive per-element feature products and seeded documents, spelling invariance, alias shadowing. '
+         'The pyparsing matcher and the composite builders with effectful loops are outside the verifier\'s reach (DESIGN.md 2.7, 4)', '3/C01',
+         'contracts on parse actions, builders and constructors (PyVC + z3) + bounded run-time contract on the real parser'),
+ 'C02': ('other', 'P: 17 DBML element renderers equal canonical-text spec functions; L: the single-quoted literal of prepare_text_for_dbml reads back unchanged (induction; definitions checked against the real routines, bounded); '
+         'B (bounded): parse(db.dbml) has the same view and rendering is a fixpoint over API-built models of the DBML-expressible domain and the repository documents', '3/C02',
+         'renderer contracts (PyVC + z3), induction lemma (z3/cvc5), bounded round-trip oracle on the real renderer+parser'),
+ 'C03': ('other', 'P: every SQL element renderer (column, index, enum, enum item, expression, note, table body/components/table) equals the DDL spec function of the model, schema-qualified names included; '
+         'L: no single quote survives in an SQL note literal; B (bounded): read_ddl(db.sql) == ddl(view(db)) with an independent SQL reader', '3/C03',
+         'renderer contracts (PyVC + z3) + bounded run-time contract with independent DDL reader'),
+ 'C04': ('other', 'P: reference SQL (inline clause and ALTER TABLE templates, direction by type, constraint name, actions, brace-safe formatting), key-holder selection get_references_for_sql, inline xor ALTER; '
+         'B (bounded): every reference exactly once, direction, join tables, read back from db.sql. Many-to-many SQL and join_table are not under contract', '3/C04',
+         'renderer contracts (PyVC + z3) + bounded run-time contract with independent DDL reader'),
+ 'C05': ('other', 'P: adders store identity back-pointers, Database.table_dict is computed and maps current names to the listed objects themselves, locate_table resolves schema.name before aliases, '
+         'ReferenceBlueprint.build/ColumnBlueprint.build link to the listed objects (identity), note setters point back; B (bounded): identity predicates on parsed databases with varied addressing', '3/C05',
+         'identity-link contracts (PyVC + z3) + bounded identity checks on parsed databases'),
+ 'C06': ('other', 'P: exceptional postconditions (raises iff rule broken, pre-existing heap unchanged) of Database.add_table/add_enum/add_table_group/add_reference/add, Table.__getitem__, locate_table; '
+         'S: equality compares every field except back-pointers/inline/comment, no try between entry points and raise sites; B (bounded): every rule x both declaration orders x position x spelling raises the rule\'s error', '3/C06',
+         'exceptional postconditions (PyVC + z3), static evaluation, bounded rule matrix'),
+ 'C07': ('other', 'S (exact evaluation of the live grammar graph and ASTs): parse = set syntax; parse_string(source, parseAll=True); build; _syntax = (six copied rules)* (newline|comment)* StringEnd; closed literal sets; '
+         'the three string forms (only the triple-quoted one spans lines); no handlers. B (bounded, exhaustive over fault kinds x sites of the base documents): every injected fault raises a pyparsing exception, open strings, no leak. '
+         'The accepted language of the pyparsing grammar is outside a contract verifier\'s reach (DESIGN.md 2.7)', '3/C07', 'static-exact obligations on the grammar + bounded fault-injection contract on the real parser'),
+ 'C08': ('other', 'P: the exception-freedom obligations of every function under contract (no path ends in an undeclared exception; every partial operation guarded; callee preconditions hold), about 120 functions; '
+         'L: str.format undoes brace doubling; B (bounded): outcome of parse/.dbml/.sql is in the allowed exception set over exhaustive token soups, site fills and seeded mutations. pyparsing\'s own termination is not proved', '3/C08',
+         'exception-freedom VCs (PyVC + z3) + bounded run-time contract on the real entry points'),
  'C09': ('other', 'P: the representation invariant is proved preserved by every Database method and by Table.add_column/delete_column/add_index/delete_index, with exact list effects, '
          'exceptional postconditions and frames (rejected operations leave the heap unchanged), unbounded in container size; lookup under current names is the proved postcondition of the computed index. '
          'B (bounded): the same invariants as run-time contracts around exhaustive short and seeded long histories (also covers renames and double-add)', '3/C09',
-         'class-invariant + frame contracts (PyVC+z3), bounded history twin'),
- 'C10': ('other', 'B (bounded): after seeded edit sequences, renderings equal those of a database rebuilt from the final view', '3/C10', 'bounded metamorphic run-time contract'),
- 'C11': ('other', 'B (bounded): history independence, no shared mutable objects between parses, stable parse-action lists, thread runs (schedules not enumerated), reclamation by weakref; '
-         'P: constructors allocate every container they store (fresh()) ', '3/C11', 'freshness contracts (PyVC+z3) + bounded history/thread/weakref runs'),
- 'C12': ('other', 'B (bounded, exhaustive over routes x BOM x options): all seven entry points agree; constructor type refusal', '3/C12', 'bounded run-time contract over all routes'),
- 'C13': ('other', 'B (bounded): normalisation contract exhaustively over short strings, three string styles, 12 text sites round trip, SQL literal neutralisation', '3/C13',
-         'bounded run-time contracts; escaping lemmas to be added'),
- 'C14': ('other', 'P: tools.comment / comment_to_sql prefix every line (discharged by z3), parse-action comment priority; B (bounded): capture per element kind and placement, '
-         'inertness under comment insertion at every allowed position, rendering as comment lines and statement non-pollution', '3/C14', 'comment-prefix contract (PyVC+z3) + bounded capture/inertness checks'),
- 'C15': ('other', 'P: Database.__init__ stores the flag; B (bounded): accept/reject/same/flip contracts over generated documents', '3/C15', 'contracts + bounded accept/reject/flip checks'),
- 'C16': ('other', 'B (bounded): custom renderer classes are used for database and elements, unhandled types render empty, default pieces appear exactly once, purity under shuffled repeated evaluation; '
-         'P: Database.__init__ stores the renderer classes', '3/C16', 'bounded run-time contract with instrumented renderer classes'),
- 'C17': ('other', 'B (bounded, exhaustive over element kinds x missing attribute x construction route): the stated exception is raised', '3/C17', 'bounded exhaustive refusal matrix'),
- 'C18': ('other', 'B (bounded, exhaustive over all DAGs up to 4 tables and most 5-table DAGs): permutation, determinism, and target-before-holder order read back from db.sql; '
-         'the ordering clause fails on the unchanged tree and is a listed known finding (test_reorder_tables pins the heuristic)', '3/C18', 'bounded exhaustive DAG enumeration with independent DDL reader'),
+         'class-invariant + frame contracts (PyVC + z3), bounded history twin'),
+ 'C10': ('other', 'P: the element renderers are pure functions of the current heap (empty frame, result = spec function of current attribute values); S: no cache decorator, weak/module-level container or non-property descriptor anywhere in pydbml; '
+         'B (bounded): after seeded edit sequences (also with renderings evaluated before the edit) renderings equal those of a database rebuilt from the final view', '3/C10',
+         'purity/functional contracts (PyVC + z3), static no-memo obligation, bounded metamorphic run-time contract'),
+ 'C11': ('other', 'P: constructors and parse actions allocate every container they store (fresh()) and write nothing else (frames); S: no mutable default arguments, no global/nonlocal/class-level mutable state, '
+         'module-level grammar rules keep their action lists, parser copies carry the collecting action; B (bounded): history independence, no shared mutable objects between parses, thread runs (schedules not enumerated), reclamation by weakref', '3/C11',
+         'freshness/frame contracts (PyVC + z3), static obligations, bounded history/thread/weakref runs'),
+ 'C12': ('other', 'P: PyDBML.__new__ (str, Path, stream), PyDBML.parse, PyDBML.parse_file, PyDBMLParser.__init__ and remove_bom: every route equals one funnel applied to the text with one leading BOM removed, options forwarded, other source types refused with TypeError; '
+         'B (bounded, exhaustive over routes x BOM x options): all seven entry points agree', '3/C12', 'entry-point contracts (PyVC + z3) + bounded run-time contract over all routes'),
+ 'C13': ('other', 'P: escaping helpers (quote_string, note_option_to_dbml, doublequote_string, prepare_text_for_sql, render_note) and note normalisation composition; L: three induction lemmas (DBML literal round trip, SQL literal neutralisation, format/brace), '
+         'definitions checked exhaustively on short words (bounded); S: string token forms; B (bounded): normalisation contract exhaustively over short strings, 12 text sites x styles round trip. The regex helpers are assumed contracts (bounded only)', '3/C13',
+         'contracts + induction lemmas (z3, cvc5) + bounded run-time contracts'),
+ 'C14': ('other', 'P: tools.comment / comment_to_sql / comment_to_dbml prefix every line; every parse action gives the trailing comment priority over the leading ones; L: prefix lemma; '
+         'B (bounded): capture per element kind and placement, inertness under comment insertion at every allowed position, rendering as comment lines', '3/C14', 'comment contracts (PyVC + z3), lemma, bounded capture/inertness checks'),
+ 'C15': ('other', 'P: Database.__init__ and the parser store the flag, column/table render gates show properties iff the owning database allows them, constructors keep the caller\'s dict; '
+         'S: the table rule follows the option and the two table/column grammars differ by exactly the property alternative; B (bounded): accept/reject/same/flip contracts over generated documents incl. legacy constraint spellings', '3/C15',
+         'contracts + static grammar diff + bounded accept/reject/flip checks'),
+ 'C16': ('other', 'P: element renderers and the registry dispatch (exact-type lookup, empty-string fallback), Database.__init__ stores the renderer classes; S: registries are exactly {class: handler}, separate per renderer, methods dispatch through cls, no memoisation; '
+         'B (bounded): custom and subclassed renderer classes are used for database and elements, default pieces appear exactly once, purity under shuffled repeated evaluation. SQL render_db is under contract in the thorough tier only (2 obligations undecided)', '3/C16',
+         'dispatch contracts (PyVC + z3), static registry obligations, bounded run-time contract with instrumented renderer classes'),
+ 'C17': ('other', 'P: exceptional postconditions of check_attributes_for_sql, Reference._validate/table1/table2, validate_for_sql, validate_for_dbml, render gates; S: required_attributes cover the statement\'s attributes; '
+         'B (bounded, exhaustive over element kinds x missing attribute x construction route): the stated exception is raised', '3/C17', 'exceptional postconditions (PyVC + z3) + bounded exhaustive refusal matrix'),
+ 'C18': ('other', 'P: reorder_tables_for_sql returns a fresh permutation of its argument (sorted() trusted as a permutation; order unmodelled) and writes nothing; S: no memoisation; '
+         'B (bounded, exhaustive over all DAGs up to 4 tables and most 5-table DAGs): permutation, determinism also after edits, and target-before-holder order read back from db.sql; '
+         'the ordering clause FAILS on the unchanged tree and is a listed known finding (test_reorder_tables pins the heuristic)', '3/C18', 'permutation contract (PyVC + z3), bounded exhaustive DAG enumeration with independent DDL reader'),
 }
 NOT_APPLICABLE = {
 }
